@@ -518,9 +518,12 @@ def splitResidue (atoms : List Atom) (maxResid : Int) (sds : List SplitDef) : Ex
     | none => a
   pure ⟨residues, atoms'⟩
 
+/-- the (new residue name, atom name) pairs of a split definition, in the order written -/
+def namedParts (sd : SplitDef) : List (String × String) := sd.parts.flatMap fun p => p.2.map fun n => (p.1, n)
+
 /-- the new name an atom is asked to carry by one split definition (`none`: not named) -/
 def askedName (sd : SplitDef) (a : Atom) : Option String :=
-  if a.resname = sd.resname then (sd.parts.find? (fun p => a.atomname ∈ p.2)).map (·.1) else none
+  if a.resname = sd.resname then ((namedParts sd).find? (fun pn => pn.2 = a.atomname)).map (·.1) else none
 
 /-- the atom names listed in a split definition, in order -/
 def listedNames (sd : SplitDef) : List String := sd.parts.flatMap (·.2)
